@@ -308,6 +308,13 @@ def job_fp(cfg):
             explore.assume((B >= F(cfg["Bmin"])).t)
         if scenario == "tails":
             lo, hi = -B, B  # cumwidths[..., 0] = -tail_bound, cumwidths[..., -1] = tail_bound (pinned)
+        elif scenario == "anybox":
+            # a box [L, L + B'] anywhere on the line: both end-points free, of any sign (upper end-point may be <= 0)
+            lo = sc.fp_var("L", prec)
+            hi = sc.fp_var("H", prec)
+            explore.assume((lo > F(-big)).t)
+            explore.assume((hi < F(big)).t)
+            explore.assume((lo < hi).t)
         else:
             lo, hi = F(0.0), B  # a box [0, B]
         knots = [lo] + ks + [hi]
@@ -383,6 +390,12 @@ def replay_fp(prec, scenario, K, leaves):
         ]
         if K >= 2:
             trials.append(("unconstrained_quadratic_spline", lambda: qd.unconstrained_quadratic_spline(xin, z(K), z(K - 1), tail_bound=B)))
+    elif scenario == "anybox":
+        L, H = float(leaves.get("L", 0.0)), float(leaves.get("H", 1.0))
+        res["box"] = [L, H]
+        trials = [
+            ("rational_quadratic_spline", lambda: rq.rational_quadratic_spline(xin, z(K), z(K), z(K + 1), left=L, right=H, bottom=L, top=H)),
+        ]
     else:
         trials = [
             ("rational_quadratic_spline", lambda: rq.rational_quadratic_spline(xin, z(K), z(K), z(K + 1), left=0.0, right=B, bottom=0.0, top=B)),
@@ -430,7 +443,7 @@ def configs(tier):
                         continue  # masked multi-branch root selection: see DESIGN (cubic inverse is outside the solver claims)
                     cfgs.append({"type": "spline", "kind": kind, "K": K, "mode": mode, "box": "sym", "inverse": inverse, "timeout": t})
     for prec in ("F32", "F64"):
-        for scenario in ("tails", "box"):
+        for scenario in ("tails", "box", "anybox"):
             for K in ((1, 2) if tier == "quick" else (1, 2, 3, 4)):
                 cfgs.append({"type": "fp", "prec": prec, "scenario": scenario, "K": K, "timeout": t})
                 # below the absorption threshold of the fixed 1e-6 the index is in range
